@@ -455,7 +455,12 @@ def register(props):
                 "DescribeScope().Unserialize without the link step; the operations run on THAT instance "
                 "(decoded-default cache still empty), the first one an Unserialize of the empty map; predicted by the model of the "
                 "original schema. structobj: struct-mapped objects (lib/props_struct.py), incl. Validate and Serialize of one native "
-                "value giving one verdict",
+                "value giving one verdict; one-ofs over struct-mapped members at the top and as the member of a struct (XHold): inlined "
+                "ones whose members declare the discriminator as an optional / treat-empty-as-default / required property (XKindP, "
+                "XKindV, XKindI), non-inlined ones over distinct struct types and a map-based member, with HAND-BUILT native member "
+                "values (own discriminator field unset, set, set to another key) through Validate, Serialize and sr = Serialize then "
+                "Unserialize; direct predicates: what Serialize of a one-of returns carries the discriminator; under an inlined "
+                "discriminator it comes back from Unserialize as a value of the same Go type (known finding D85 otherwise)",
         "assumptions": ["property names of an object and keys of a raw map are unique (Go maps)",
                         "struct-mapped objects are covered by the struct-mapped extension of the model (another work package)"],
         "level_text": "Theorems (all property lists, all rule graphs, all raw maps, unbounded): Unserialize of a map-based object returns Ok n "
